@@ -4,6 +4,7 @@
 #include "vx_common.h"
 #include "model_sink.h"
 #include "model_source.h"
+#include "model_stack.h"
 #include "spec_ubjson.h"
 
 /*@ENUM ubjson_errc@*/
@@ -18,6 +19,13 @@ static void vx_end_value(void) { vx_items++; }   /* end_value(): ++stack_.back()
 /*@FUNC visit_uint64@*/
 /*@FUNC put_length@*/
 /*@FUNC get_length@*/
+/*@ENUM parse_mode@*/
+/* begin_array / begin_object: ghost visitor */
+struct ubjson_parser2 { bool more_; bool cursor_mode_; int nesting_depth_, max_nesting_depth_; size_t max_items_; };
+static unsigned vx_events; static bool vx_ev_counted; static size_t vx_ev_len;
+static void vx_ev_begin(int counted, size_t n) { vx_events++; vx_ev_counted = counted; vx_ev_len = n; }
+/*@FUNC begin_array@*/
+/*@FUNC begin_object@*/
 
 #ifdef VX_CBMC
 void h_visit_int64(void) { vx_sink_n = 0; vx_items = 0; visit_int64(nondet_i64()); }
@@ -31,6 +39,17 @@ void h_get_length(void)
     __CPROVER_assume(vx_src_n <= VX_SRC_CAP - 9 && vx_src_pos <= vx_src_n);
     get_length(&p, &ec);
 }
+static struct ubjson_parser2 vx_p2;
+static void setup_p2(void)
+{
+    __CPROVER_havoc_object(vx_src);
+    vx_src_n = nondet_size(); vx_src_pos = nondet_size();
+    __CPROVER_assume(vx_src_n <= VX_SRC_CAP - 9 && vx_src_pos <= vx_src_n);
+    vx_p2.more_ = true; vx_p2.cursor_mode_ = nondet_bool(); vx_p2.nesting_depth_ = nondet_int(); vx_p2.max_nesting_depth_ = nondet_int(); vx_p2.max_items_ = nondet_size();
+    vx_pushes = 0; vx_events = 0;
+}
+void h_begin_array(void) { setup_p2(); int ec = 0; begin_array(&vx_p2, &ec); }
+void h_begin_object(void) { setup_p2(); int ec = 0; begin_object(&vx_p2, &ec); }
 void h_length_rt(void)
 {
     size_t n = nondet_size(); __CPROVER_assume(n <= (size_t)INT64_MAX);
